@@ -113,6 +113,7 @@ type Outcome struct {
 	Rejected   []int // AddFrame calls that returned an error (error injection only)
 	Fails      []StepFail
 	Faulty     bool
+	Written    bool // Close returned nil and wrote the file
 	EmitFiller []bool
 	State      string
 	ICC, EXIF, XMP []byte `json:"-"`
@@ -455,6 +456,7 @@ func Run(h *History, rng *Rand) (out *Outcome) {
 	out.Bytes = data
 	out.Simple = simpleData != nil && bytes.Equal(simpleData, data)
 
+	out.Written = true // from here on a failure means the written file does not play back
 	dmx, err := mux.NewDemuxer(data)
 	if err != nil {
 		out.Err = "demuxerr"
